@@ -267,6 +267,9 @@ UNITS_SPECIAL = [0x25, 0x7b, 0x7d, 0x3a, 0x3f, 0x2c, 0x21, 0x3c, 0x3e, 0x5e, 0x2
                  0xd83d, 0xde00, 0xd800, 0xdfff, 0x0a, 0x09, 0x22, 0x5c, 0x2f, 0x30, 0x39, 0x2b, 0x2d, 0x61, 0x41, 0xa0, 0x2028]
 
 
+REGEX_MENU = 14   # size of kRegexMenu in harness/h_safety.cpp (asked back with the M request)
+
+
 def gen_text(rng, maxlen):
     r = rng.random()
     if r < 0.1:
@@ -937,7 +940,7 @@ def run():
             reqs_d.append(Req('C', rules=u16(gen_rules(rng)), type=rng.randrange(5),
                               cat=or_null(rng, rng.choice(ASCII_CATS) if rng.random() < 0.6 else bytes(rng.randrange(1, 256) for _ in range(rng.randint(0, 256))))))
         elif k == 'R':
-            reqs_d.append(Req('R', idx=rng.randrange(12), msg=gen_text(rng, 400)))
+            reqs_d.append(Req('R', idx=rng.randrange(REGEX_MENU), msg=gen_text(rng, 400) + ([rng.choice([0xd83d, 0xd800, 0xdbff])] if rng.random() < 0.2 else [])))  # a text cut inside a surrogate pair
         elif k == 'G':
             r0 = rng.choice(reqs_g)
             # the same chain with arbitrary category bytes and arbitrary-unit texts (no model comparison here)
@@ -971,7 +974,7 @@ def run():
                               cat=[rng.randrange(1, 256) for _ in range(size)])); nbig += 1
             reqs_d.append(Req(rng.choice('JS'), flag=rng.randrange(2), msg=longtext, func=list(gen_sig_long(rng, size)),
                               attrs=[(u16('a'), longtext[:size // 2])])); nbig += 1
-            reqs_d.append(Req('R', idx=rng.randrange(12), msg=longtext)); nbig += 1
+            reqs_d.append(Req('R', idx=rng.randrange(REGEX_MENU), msg=longtext)); nbig += 1
             reqs_d.append(Req('C', rules=u16(gen_rules(rng)), cat=[rng.randrange(1, 256) for _ in range(256)])); nbig += 1
             reqs_d.append(Req('Y', flag=1, maxw=rng.choice([15, 15, INT_MAX, 1 << 30]), items=[(rng.randrange(5), [rng.randrange(1, 256) for _ in range(size // 4)], longtext)])); nbig += 1
             esclong = []
